@@ -48,22 +48,26 @@ Definition SIG_UDP_WRAPPED := 5%N.          (* datagram service tests the concre
 Definition SIG_DATAGRAM_NOT_OWN := 6%N.     (* a datagram is not decoded and reported on its own (other datagram's bytes, none, twice) *)
 
 Definition is_http_family (svc : N) : bool := ((5 <=? svc) && (svc <=? 10))%N.
+Definition SIG_TELNET_LINES := 7%N.          (* telnet: the lines/commands reported are not those of the byte stream *)
+Definition SIG_LDAP_MESSAGES := 8%N.         (* ldap: not exactly one event per complete message *)
 Definition is_memcached (svc : N) : bool := beq svc SVC_MEMCACHED || beq svc SVC_MEMCACHED_UDP.
 Definition has_store (es : list event) : bool := existsb (fun e => beq (ev_ty e) EV_MC_STORE) es.
 
 Definition case_sig (c : case) : N :=
-  let exp := expected (c_svc c) (c_stream c) in
+  let exp := reference (c_svc c) (c_stream c) in
   let got := (c_events c, c_code c) in
   if obs_eqb exp got then 0%N
   else if is_memcached (c_svc c) && (has_store (fst exp) || has_store (fst got)) then SIG_MEMCACHED_STORAGE
   else if is_http_family (c_svc c) && (length (fst got) <? length (fst exp)) then SIG_HTTP_REQUEST_LOST
   else if is_http_family (c_svc c) && (length (fst got) =? length (fst exp)) then SIG_HTTP_SHORT_BODY
+  else if beq (c_svc c) SVC_TELNET then SIG_TELNET_LINES
+  else if beq (c_svc c) SVC_LDAP then SIG_LDAP_MESSAGES
   else if beq (c_svc c) SVC_DNS && (match fst got with [] => true | _ => false end) then SIG_UDP_WRAPPED
   else if (20 <=? c_svc c)%N then SIG_DATAGRAM_NOT_OWN
   else SIG_EVENTS_DIFFER.
 
 Definition mismatches (cs : list case) : list N :=
-  map c_id (filter (fun c => negb (obs_eqb (run_impl (c_svc c) (c_segs c)) (c_events c, c_code c))) cs).
+  map c_id (filter (fun c => negb (obs_eqb (run_model (c_svc c) (c_segs c)) (c_events c, c_code c))) cs).
 
 Definition violations (cs : list case) : list (N * N) :=
   flat_map (fun c => let s := case_sig c in if beq s 0%N then [] else [(c_id c, s)]) cs.
@@ -76,7 +80,7 @@ Definition tags (cs : list case) : list (N * N) :=
     let svc := c_svc c in
     let s := c_stream c in
     let p := impl_prog svc (fuel_for s) in
-    let exp := expected svc s in
+    let exp := reference svc s in
     (c_id c,
      match fst exp, c_events c with
      | [], [] => 0
